@@ -17,7 +17,7 @@ ASSUMPTIONS = ['a syntax note that mentions a position beyond the elements its s
                'composite nodes report "<segment path>/" as their path; their addressability is judged through getnodebypath2(<segment path><refdes>)',
                'wrapper loops and loops whose first child is a loop have no qualifier of their own; distinguishability is judged on their entry segments']
 REQUIRED_COUNTERS = ['maps-loaded', 'index-entries', 'nodes:loop', 'nodes:segment', 'nodes:element', 'nodes:composite', 'lookups:getnodebypath', 'lookups:getnodebypath2',
-                     'fingerprints-compared', 'data-element-refs', 'external-code-refs']
+                     'fingerprints-compared', 'data-element-refs', 'external-code-refs', 'tables:codesets-compared', 'tables:data-elements-compared', 'tables:external-refs-against-loaded-table']
 MIN_CASES = {'quick': 20000, 'thorough': 20000}
 SHARDS = {'quick': 16, 'thorough': 16}
 
@@ -272,6 +272,52 @@ def check_map(ctx, fn, indexed, DE, CODES, map_dir):
     return nchecked, sigs
 
 
+def check_tables(ctx, DE, CODES, map_dir):
+    """the tables the library actually loads (packaged resources and explicit directory) == the independent reading of codes.xml / dataele.xml;
+    every code set and data element a map names is in the LOADED table (a loader that drops entries leaves the maps dangling)"""
+    import pyx12.codes
+    import pyx12.dataele
+    n = 0
+    for route, mp in (('resources', None), ('map_path', map_dir)):
+        try:
+            ext = pyx12.codes.ExternalCodes(mp)
+            de = pyx12.dataele.DataElements(mp)
+        except Exception as ex:
+            ctx.viol('tables:load:%s' % exc_key(ex), 'loading the code / data element tables raised', {'route': route}, {'exc': repr(ex)[:300]})
+            continue
+        got = dict((k, list(v['codes'])) for k, v in ext.codes.items())
+        for k in sorted(set(got) | set(CODES)):
+            n += 1
+            ctx.count('tables:codesets-compared')
+            if k not in got:
+                ctx.viol('tables:codeset-not-loaded', 'a code set of codes.xml is missing from the loaded table', {'route': route, 'codeset': k}, {})
+            elif k not in CODES:
+                ctx.viol('tables:codeset-invented', 'the loaded table has a code set codes.xml does not define', {'route': route, 'codeset': k}, {})
+            elif got[k] != CODES[k]:
+                a, b = set(got[k]), set(CODES[k])
+                ctx.viol('tables:codeset-content', 'a loaded code set differs from codes.xml', {'route': route, 'codeset': k}, {'missing': sorted(b - a)[:8], 'extra': sorted(a - b)[:8], 'loaded': len(got[k]), 'xml': len(CODES[k])})
+        gde = dict((k, (v['data_type'], int(v['min_len']), int(v['max_len']))) for k, v in de.dataele.items())
+        for k in sorted(set(gde) | set(DE)):
+            n += 1
+            ctx.count('tables:data-elements-compared')
+            if gde.get(k) != DE.get(k):
+                ctx.viol('tables:data-element', 'a loaded data element differs from dataele.xml (or is missing / invented)', {'route': route, 'data_ele': k}, {'loaded': gde.get(k), 'xml': DE.get(k)})
+        # what the maps name, against the loaded tables
+        for fn in sorted(refmap.map_files()):
+            try:
+                rroot = refmap.load(fn)
+            except Exception:
+                continue
+            for nd in refmap.walk(rroot):
+                if nd.kind == 'ele' and nd.external is not None:
+                    n += 1
+                    ctx.count('tables:external-refs-against-loaded-table')
+                    if nd.external not in ext.codes:
+                        ctx.viol('tables:map-names-codeset-not-loaded', 'an element names an external code set that the loaded table does not hold', {'route': route, 'map': fn, 'codeset': nd.external, 'node': nd.path()}, {})
+                        break
+    return n
+
+
 def run(ctx):
     DE = refmap.load_dataele()
     CODES = refmap.load_codes()
@@ -303,6 +349,7 @@ def run(ctx):
         for f in indexed:
             if f not in files:
                 files.append(f)
+        total += check_tables(ctx, DE, CODES, map_dir)
     else:
         ctx.count('index-entries', 0)
     for fi, fn in enumerate(sorted(files)):
